@@ -764,6 +764,11 @@ func (c *updater) buildBackendOAuth(d *backData) {
 			uriPrefix = prefix.Value
 		}
 		uriPrefix = strings.TrimRight(uriPrefix, "/")
+		if uriPrefix == "" {
+			// the prefix is also the path that is not authenticated: every path starts with an empty one
+			c.logger.Warn("ignoring oauth configuration on %v: an empty or root oauth-uri-prefix would leave every path without authentication", oauth.Source)
+			continue
+		}
 		namespace := oauth.Source.Namespace
 		backend := c.findBackend(namespace, uriPrefix)
 		if backend == nil {
